@@ -367,6 +367,8 @@ def vvmul(qa, qb):
 
     :seealso: :func:`q2v`, :func:`v2q`, :func:`qvmul`
     """
+    qa = base.getvector(qa, 3)
+    qb = base.getvector(qb, 3)
     t6 = math.sqrt(1.0 - np.sum(qa**2))
     t11 = math.sqrt(1.0 - np.sum(qb**2))
     return np.r_[qa[1] * qb[2] - qb[1] * qa[2] + qb[0] * t6 + qa[0] * t11, -qa[0] * qb[2] + qb[0] * qa[2] + qb[1] * t6 + qa[1] * t11, qa[0] * qb[1] - qb[0] * qa[1] + qb[2] * t6 + qa[2] * t11]
